@@ -76,6 +76,37 @@ def stmt_candidates(path, src):
     return out
 
 
+def ident_candidates(path, src):
+    """one local variable used in place of another: inside each fn body, an occurrence of a local (a `let` name or a
+    parameter) is replaced by another local of the same function"""
+    end = code_region(src)
+    out = []
+    for m in re.finditer(r"\bfn\s+\w+[^{;]*\{", src[:end]):
+        a = m.end()
+        depth, i = 1, a
+        while i < end and depth:
+            depth += {"{": 1, "}": -1}.get(src[i], 0)
+            i += 1
+        body = src[a:i]
+        sig = src[m.start():a]
+        names = set(re.findall(r"\blet\s+(?:mut\s+)?(\w+)", body)) | set(re.findall(r"[(,]\s*(?:mut\s+)?(\w+)\s*:", sig))
+        names -= {"self", "_", "Self"}
+        if len(names) < 2:
+            continue
+        for nm in sorted(names):
+            for mm in re.finditer(r"(?<![\w.])" + re.escape(nm) + r"(?![\w(!:])", body):
+                pre = body[max(0, mm.start() - 12):mm.start()]
+                if re.search(r"let\s+(mut\s+)?$", pre) or body[mm.end():mm.end() + 2] in (" =", "=") and not body[mm.end():mm.end() + 3].startswith(" =="):
+                    continue
+                line_a = body.rfind("\n", 0, mm.start()) + 1
+                line = body[line_a:body.find("\n", mm.start())].strip()
+                if line.startswith("//"):
+                    continue
+                for other in sorted(names - {nm}):
+                    out.append((path, a + mm.start(), a + mm.end(), other, line))
+    return out
+
+
 def classify(mut):
     path, a, b, rep, line = mut
     tmp = tempfile.mkdtemp(prefix="rtcpsweep")
@@ -123,7 +154,7 @@ def main():
             rel = os.path.relpath(os.path.join(root, f), facts.REPO)
             if files and not any(rel.endswith(x) for x in files.split(",")):
                 continue
-            cands += (stmt_candidates if "--stmt" in args else candidates)(rel, open(os.path.join(root, f)).read())
+            cands += (stmt_candidates if "--stmt" in args else ident_candidates if "--ident" in args else candidates)(rel, open(os.path.join(root, f)).read())
     random.Random(seed).shuffle(cands)
     cands = cands[int(opt("--skip", "0")):mx]
     print(len(cands), "mutants")
